@@ -11,7 +11,7 @@ search of the thorough tier (not a model comparison: the expected count is 0). -
 namespace Cnl.Drv
 open Cnl Cnl.Bits
 
-def parseCfg : String → Option Cfg
+private def c18ParseCfg : String → Option Cfg
   | "ig" => some ⟨true, false⟩
   | "ic" => some ⟨true, true⟩
   | "gen" => some ⟨false, false⟩
@@ -25,7 +25,7 @@ def checkC18 (toks : List String) (res : String) : Option Verdict :=
   match toks with
   | ["sweep32", _, _, _, _] => some { model := "0", spec := some (res == "0"), branch := "sweep32", nontrivial := true }
   | [fn, cfg, ty, xs] => do
-    let c ← parseCfg cfg; let T ← parseIntTy ty; let v ← xs.toInt?
+    let c ← c18ParseCfg cfg; let T ← parseIntTy ty; let v ← xs.toInt?
     let w := T.bits
     if !T.inRange v || w == 0 then none
     let x := v.toNat
@@ -39,14 +39,14 @@ def checkC18 (toks : List String) (res : String) : Option Verdict :=
       | "countr_used" => cnt (countrUsed c T v) (Spec.Bits.valueBits v)
       | "used_digits" => cnt (usedDigits T v 2) (Spec.Bits.valueBits v)
       | "leading_bits" => cnt (leadingBits T v) (Spec.Bits.leadingBits w true v)
-      | "trailing_bits" => cnt (AsFound.trailingBits c T v) (Spec.Bits.trailingBits w v)
+      | "trailing_bits" => cnt (trailingBits c T v) (Spec.Bits.trailingBits w v)
       | _ => none
     else
       match fn with
       | "countl_zero" => cnt (countlZero c w x) (Spec.Bits.countlZero w x)
       | "countl_one" => cnt (countlOne c w x) (Spec.Bits.countlOne w x)
-      | "countr_zero" => cnt (AsFound.countrZero c w x) (Spec.Bits.countrZero w x) "C18.ctz_zero"
-      | "countr_one" => cnt (AsFound.countrOne c w x) (Spec.Bits.countrOne w x) "C18.ctz_zero"
+      | "countr_zero" => cnt (countrZero c w x) (Spec.Bits.countrZero w x)
+      | "countr_one" => cnt (countrOne c w x) (Spec.Bits.countrOne w x)
       | "popcount" => cnt (popcount c w x) (Spec.Bits.popcount w x)
       | "log2p1" => cnt (log2p1 c w x) (Spec.Bits.bitLength x)
       | "ispow2" =>
@@ -62,10 +62,10 @@ def checkC18 (toks : List String) (res : String) : Option Verdict :=
       | "countr_used" => cnt (countrUsed c T v) (Spec.Bits.bitLength x)
       | "used_digits" => cnt (usedDigits T v 2) (Spec.Bits.bitLength x)
       | "leading_bits" => cnt (leadingBits T v) (Spec.Bits.leadingBits w false v)
-      | "trailing_bits" => cnt (AsFound.trailingBits c T v) (Spec.Bits.trailingBits w v)
+      | "trailing_bits" => cnt (trailingBits c T v) (Spec.Bits.trailingBits w v)
       | _ => none
   | [fn, cfg, ty, xs, ss] => do
-    let _c ← parseCfg cfg; let T ← parseIntTy ty; let v ← xs.toInt?; let s ← ss.toNat?
+    let _c ← c18ParseCfg cfg; let T ← parseIntTy ty; let v ← xs.toInt?; let s ← ss.toNat?
     let w := T.bits
     if !T.inRange v || w == 0 then none
     let x := v.toNat
@@ -73,13 +73,11 @@ def checkC18 (toks : List String) (res : String) : Option Verdict :=
     match fn with
     | "rotl" =>
       if T.signed then none else
-      some { model := showRes (showU w) (AsFound.rotl w x s), spec := some (res == showU w (Spec.Bits.rotl w x s)),
-             cls := if res == showU w (Spec.Bits.rotl w x s) then "" else "C18.rot_full_width_shift",
+      some { model := showRes (showU w) (rotl w x s), spec := some (res == showU w (Spec.Bits.rotl w x s)),
              branch := tag ++ (if s % w == 0 then "/multiple-of-width" else "") }
     | "rotr" =>
       if T.signed then none else
-      some { model := showRes (showU w) (AsFound.rotr w x s), spec := some (res == showU w (Spec.Bits.rotr w x s)),
-             cls := if res == showU w (Spec.Bits.rotr w x s) then "" else "C18.rot_full_width_shift",
+      some { model := showRes (showU w) (rotr w x s), spec := some (res == showU w (Spec.Bits.rotr w x s)),
              branch := tag ++ (if s % w == 0 then "/multiple-of-width" else "") }
     | "used_digits_r" =>
       let n := (if v < 0 then -v - 1 else v).toNat
